@@ -1,11 +1,11 @@
 package main
 
 import (
-	"strconv"
-	"os"
 	"go/ast"
 	"go/token"
 	"go/types"
+	"os"
+	"strconv"
 	"strings"
 )
 
